@@ -99,6 +99,8 @@ const LAYOUTS = {
   crlf: (lines) => ['// crlf'].concat(lines).map((l) => l + '\r'),
   // text that looks like the trailer, earlier in the file: a string literal, a template and a real (mid-file) comment
   lookalike: (lines) => ["const marker = '//# sourceMappingURL=data:application/json;base64,' + 'e30='", '//# sourceMappingURL=ghost.js.map', 'const tpl = `\n//# sourceMappingURL=data:application/json;base64,e30=\n`'].concat(lines).join('\n').split('\n'),
+  // a site on the very first line of the file (0 in the 0-based coordinates of the map)
+  first_line: (lines) => ["function z1(x) { throw new Error('z1' + x) } /*@z1*/"].concat(lines).concat(['module.exports.z1 = z1']),
   bmp: (lines) => ["// ñ€ header ‘x’"].concat(lines.map((l) => l.replace('/*@', "/* ñ€ */ /*@")))
 }
 const DIR = '/p/c11'
@@ -145,12 +147,13 @@ const CALLS = {
   a8: (m) => m.a8('n'), // a native frame (Array.map) between two frames of the file
   a9: (m) => m.a9('k'), // constructor frame
   a10: (m) => m.a10('g'), // getter frame
-  b1: (m) => m.b1(' q ')
+  b1: (m) => m.b1(' q '),
+  z1: (m) => m.z1('f')
 }
 // sites of the position-collision file (see collisionFile)
 for (let k = 0; k < 16; k++) CALLS['s' + k] = (m) => m['s' + k]()
 // top-frame site of each call (null: the top frame is not in the rewritten file)
-const TOP = { a1: 'a1', a2: 'a2', a3: null, a4: 'a4', a5: null, a6: 'a6', a7: 'a7', a8: 'a8', a9: 'a9', a10: 'a10', b1: 'b1' }
+const TOP = { a1: 'a1', a2: 'a2', a3: null, a4: 'a4', a5: null, a6: 'a6', a7: 'a7', a8: 'a8', a9: 'a9', a10: 'a10', b1: 'b1', z1: 'z1' }
 
 function load (file, content) {
   const mod = { exports: {} }
